@@ -9,12 +9,11 @@
 #include "vsym.h"
 using namespace muscle;
 
-enum {K_WHAT=0, K_EXISTS, K_INT8, K_INT16, K_INT32, K_INT64, K_BOOL, K_MIN, K_MAX, K_AND, K_OR, K_NAND, K_NOR, K_XOR, K_MESSAGE, K_BADARCHIVE, K_FLOAT};
+enum {K_WHAT=0, K_EXISTS, K_INT8, K_INT16, K_INT32, K_INT64, K_BOOL, K_MIN, K_MAX, K_AND, K_OR, K_NAND, K_NOR, K_XOR, K_MESSAGE, K_BADARCHIVE, K_FLOAT, K_DOUBLE};
 
 static Message * G;      // the Message under test (a local of the harness entry: ir2c does not run global constructors)
 #define g_msg (*G)
 static uint32 N;                 // items in field "f"
-static int64 g_vals[3];          // their values (as the widest type)
 
 // Archived jobs: SaveToArchive omits fields that hold their default value (CAddInt32 etc.), so a symbolic operator/index/threshold makes the archive's field SET
 // symbolic, and every later virtual call on the archive's arrays becomes a case split over all classes (an assumption does not prune symbolic execution).
@@ -43,6 +42,7 @@ static void CheckUnmodified(uint32 what, uint32 typeCode)
    if (N > 0) {uint32 tc = 0, cnt = 0; CHECK(g_msg.GetInfo("f", &tc, &cnt).IsOK(), "field still there"); CHECK((tc == typeCode)&&(cnt == N), "evaluation does not change the field's type or item count");}
 }
 
+static bool g_skipEq = false;
 // archive round trip through the factory: same verdict, equal filter
 static void CheckArchived(const QueryFilter & f, bool expected)
 {
@@ -58,15 +58,20 @@ static void CheckArchived(const QueryFilter & f, bool expected)
       DummyConstMessageRef r(g_msg);
       CHECK(g()->Matches(r, NULL) == expected, "a restored filter gives the same verdict");
       CHECK(g()->TypeCode() == f.TypeCode(), "a restored filter has the same class");
-      CHECK(g()->IsEqualTo(f), "a restored filter equals the original");
+      if (!g_skipEq) CHECK(g()->IsEqualTo(f), "a restored filter equals the original");
    }
 }
+
+template<typename T> static T SymBits() {const uint64 b = nondet_u64(); T r; memcpy(&r, &b, sizeof(T)); return r;}     // every bit pattern of T (NaN, -0, inf for floating point)
+// floating point has no mask operations: QueryFilter.h's specialisations return T() whenever a mask operator is set
+template<> float  RefMask<float >(uint8, float,  float)  {return 0.0f;}
+template<> double RefMask<double>(uint8, double, double) {return 0.0;}
 
 template<typename T, class F, uint32 TC> static void RunNumeric(bool otherType)
 {
    // field "f": N items of T (or of another type when otherType)
    T vals[3];
-   for (uint32 i=0;i<3;i++) {vals[i] = (T) nondet_u64(); g_vals[i] = (int64) vals[i];}
+   for (uint32 i=0;i<3;i++) vals[i] = SymBits<T>();
    for (uint32 i=0;i<N;i++)
    {
       if (otherType) {if (TC == B_INT16_TYPE) (void) g_msg.AddInt32("f", (int32) vals[i]); else (void) g_msg.AddInt16("f", (int16) vals[i]);}
@@ -74,7 +79,7 @@ template<typename T, class F, uint32 TC> static void RunNumeric(bool otherType)
    }
    const uint32 fieldType = otherType ? ((TC == B_INT16_TYPE) ? (uint32)B_INT32_TYPE : (uint32)B_INT16_TYPE) : TC;
    const uint32 what = g_msg.what;
-   uint8 op = nondet_u8(), mop = nondet_u8(); uint32 idx = nondet_u8()&3; const T operand = (T) nondet_u64(), mask = (T) nondet_u64(), def = (T) nondet_u64(); bool useDef = (nondet_u8()&1) != 0;
+   uint8 op = nondet_u8(), mop = nondet_u8(); uint32 idx = nondet_u8()&3; const T operand = SymBits<T>(), mask = SymBits<T>(), def = SymBits<T>(); bool useDef = (nondet_u8()&1) != 0;
    if (Arch()) {idx = P5(0,3); op = (uint8) P5(2,7); mop = (uint8) P5(5,7); useDef = (P5(8,1) != 0);}
    F f("f", op, operand, idx);
    if (useDef) f.SetAssumedDefault(def);
@@ -88,13 +93,17 @@ template<typename T, class F, uint32 TC> static void RunNumeric(bool otherType)
    else
    {
       const T v = present ? vals[idx] : def;
-      expected = RefCompare<T>(op, (mop >= 1 && mop <= 6) ? RefMask<T>(mop, v, mask) : v, operand);
+      // integer types: mask operators 1..6, any other value leaves the item as it is; floating point: QueryFilter.h's dummy specialisations yield T() for EVERY non-zero mask operator
+      const bool fp = (TC == B_FLOAT_TYPE)||(TC == B_DOUBLE_TYPE);
+      expected = RefCompare<T>(op, fp ? ((mop != 0) ? T() : v) : ((mop >= 1 && mop <= 6) ? RefMask<T>(mop, v, mask) : v), operand);
    }
    CHECK(got == expected, "numeric filter: typed comparison of the indexed item with the operand, missing data handled by the default rule");
    CHECK(r() == &g_msg, "the filter does not retarget the Message reference");
    CheckUnmodified(what, fieldType);
-   if (N > 0) {const void * p = NULL; uint32 nb = 0; if ((!otherType)&&(g_msg.FindData("f", TC, 0, &p, &nb).IsOK())) CHECK((nb == sizeof(T))&&(*((const T *)p) == vals[0]), "evaluation does not change the field's values");}
+   if (N > 0) {const void * p = NULL; uint32 nb = 0; if ((!otherType)&&(g_msg.FindData("f", TC, 0, &p, &nb).IsOK())) CHECK((nb == sizeof(T))&&(memcmp(p, &vals[0], sizeof(T)) == 0), "evaluation does not change the field's values");}
+   g_skipEq = !((operand == operand)&&(mask == mask)&&(def == def));     // a NaN parameter: IsEqualTo compares with ==, such a filter does not equal itself
    CheckArchived(f, expected);
+   g_skipEq = false;
    verif_observe(got ? 1 : 0);
 }
 
@@ -165,6 +174,8 @@ extern "C" void harness_qf(void)
       case K_INT16: RunNumeric<int16, Int16QueryFilter, B_INT16_TYPE>(otherType); break;
       case K_INT32: RunNumeric<int32, Int32QueryFilter, B_INT32_TYPE>(otherType); break;
       case K_INT64: RunNumeric<int64, Int64QueryFilter, B_INT64_TYPE>(otherType); break;
+      case K_FLOAT: RunNumeric<float,  FloatQueryFilter,  B_FLOAT_TYPE >(otherType); break;
+      case K_DOUBLE: RunNumeric<double, DoubleQueryFilter, B_DOUBLE_TYPE>(otherType); break;
       case K_BOOL:
       {
          bool vals[3]; for (uint32 i=0;i<3;i++) vals[i] = (nondet_u8()&1) != 0;
